@@ -174,6 +174,12 @@ def make_listener_classes() -> Dict[str, Any]:
                 elif self.act == "add_other":
                     self.other = Rec(zc, self.name + "+")
                     zc.async_add_listener(self.other, None)
+                elif self.act == "add_other_asking":
+                    # ... with questions, so that what the cache holds is replayed to the newcomer (and to nobody else)
+                    from zeroconf import DNSQuestion
+                    self.other = Rec(zc, self.name + "+")
+                    zc.async_add_listener(self.other, [DNSQuestion("h.local.", 255, 1), DNSQuestion(TYPE_A, 12, 1),
+                                                       DNSQuestion(X, 255, 1)])
 
         def async_update_records_complete(self) -> None:
             self.calls.append(("c", self.snapshot()))
@@ -226,7 +232,7 @@ class Search:
             else:
                 act, order = self.config.split(":")
                 actor = Rec(zc, "X")
-                actor.act = {"remove": "remove_self", "add": "add_other"}[act]
+                actor.act = {"remove": "remove_self", "add": "add_other", "addq": "add_other_asking"}[act]
                 for l in (rec, actor) if order == "RX" else (actor, rec):
                     zc.async_add_listener(l, None)
             model = CacheModel()
@@ -400,8 +406,13 @@ class Search:
                     continue
                 ups = [c for c in lis.calls if c[0] == "u"]
                 comps = [c for c in lis.calls if c[0] == "c"]
-                if len(ups) > 1 or len(comps) > 1:
+                # (a newcomer that asks is first told what the cache holds - one call of each kind that belongs to its
+                # registration, not to the datagram)
+                extra = 1 if (lis is actor.other and actor.act == "add_other_asking") else 0
+                if len(ups) > 1 + extra or len(comps) > 1 + extra:
                     problems.append(f"listener-calls: {who} called {len(ups)}/{len(comps)} times (at most once each)")
+            if actor.act == "add_other_asking" and pairs:
+                whole(actor, "acting listener (adds another that asks)")
             if actor.act == "add_other" and pairs:
                 # the actor itself stayed registered for the whole datagram
                 whole(actor, "acting listener (adds another)")
